@@ -24,7 +24,7 @@ ASSUMPTIONS = [
     "shooting growth bounded by exp(13.8) by construction",
 ]
 TOLERANCES = {"all": "(1e-12 + 4096*eps*G) * max|field| (spectral comparisons: * max|spectrum|)"}
-BUDGET = {"quick": dict(examples=350, shards=1), "thorough": dict(examples=2000, shards=16)}
+BUDGET = {"quick": dict(examples=900, shards=1), "thorough": dict(examples=8000, shards=16)}
 
 
 def warmup():
@@ -115,7 +115,7 @@ def check_case(case):
     ch, fh = run(q0, prof, dom, mh, (im, jm), hv)
     ct, ft = run(q0.T.copy(), (v, u, Ky, Kx, Kz), (dom[1], dom[0]), (mh[1], mh[0]), (jm, im), hv)
     for name, a, b in (("conc", ch, ct.transpose(0, 2, 1)), ("flux", fh, ft.transpose(0, 2, 1))):
-        scale = max(tol.maxabs(a), abs(bg))
+        scale = max(tol.maxabs(a), abs(bg), cs0 if name == "conc" else fs0)
         err = tol.maxabs(a - b)
         if not err <= rel * scale:
             out.bad(f"axis swap: {name} of the transposed problem is not the transposed {name} ({err:.3e} > {rel * scale:.3e}; halo {hv}, modes {mh})")
